@@ -78,6 +78,8 @@ impl SortedWritesTable {
         if dirty_ids.is_empty() || self.to_rebuild.is_empty() {
             return false;
         }
+        #[cfg(egglog_verif)]
+        crate::verif::count(crate::verif::Path::table_refresh_rows_for_values);
         // Reuse the rebuild index to find rows whose rebuildable columns mention
         // one of the same-id dirty container ids.
         self.refresh_rebuild_index();
@@ -126,6 +128,8 @@ impl SortedWritesTable {
         next_ts: Value,
         exec_state: &mut ExecutionState,
     ) -> bool {
+        #[cfg(egglog_verif)]
+        crate::verif::count(crate::verif::Path::table_rebuild_incremental);
         self.refresh_rebuild_index();
         let mut buf = TaggedRowBuffer::new(1);
         table.scan_project(
@@ -194,7 +198,11 @@ impl SortedWritesTable {
         exec_state: &mut ExecutionState,
     ) -> bool {
         const STEP_SIZE: usize = 2048;
+        #[cfg(egglog_verif)]
+        crate::verif::count(crate::verif::Path::table_rebuild_nonincremental);
         if parallelize_rebuild(self.data.next_row().index()) {
+            #[cfg(egglog_verif)]
+            crate::verif::count(crate::verif::Path::table_rebuild_nonincremental_parallel);
             let max_row = self.data.next_row().index();
             let starts = (0..max_row).step_by(STEP_SIZE).collect::<Vec<_>>();
             parallel::map(&starts, |_, start| {
